@@ -38,6 +38,12 @@
 (*   NoRecompute  a run that follows a completed run performs no Compute   *)
 (*   Terminates   every run that is not crashed ends (liveness, cfg _live) *)
 (*   FinalWhole   (lemma, temp design) a final path is never partial       *)
+(*   RightResults every completed run returns the current function's      *)
+(*                results -- also in-process histories Run, Rerun,         *)
+(*                [Mutate the returned objects, Rerun,] ClearCache (cache  *)
+(*                directory deleted, function changed), Run, Rerun; the    *)
+(*                wrong instance Memo = TRUE (process-wide memo keyed by   *)
+(*                path) is refuted by TLC (cfg _memo)                      *)
 (* Emit prints every distinct crash history with the stage of every        *)
 (* worker and the files left behind: these are the crash points the        *)
 (* harness realises against the real parallelise()/scan.steady_state().    *)
@@ -54,6 +60,10 @@ CONSTANTS
     Design,     \* "direct" | "temp" | "any" (any: chosen in Init)
     Policy,     \* "trust" | "validate" | "any"
     RenameAt,   \* "closed" (contract) | "written" (rename before close: wrong order)
+    Memo,       \* TRUE: implementation-shaped wrong instance -- a process-wide memo keyed by the file path
+                \*       answers repeated loads (must be refuted); FALSE: a hit returns what is on disk
+    MaxClear,   \* how often the caller may delete the cache directory and change the mapped function
+    MaxExtra,   \* further repetitions of a completed run (in the same process) per function version
     MaxCrash,   \* how many crashes a behaviour may contain
     Fifo,       \* TRUE: keys are handed out in input order (task queue); FALSE: any order
     EmitOn      \* TRUE: record crash snapshots and print them
@@ -61,7 +71,7 @@ CONSTANTS
 Keys    == 1..NKeys
 Workers == 1..W
 Absent  == 0 - 1
-IdlePc  == [k |-> 0, at |-> "idle", b |-> 0, mv |-> FALSE]
+IdlePc  == [k |-> 0, at |-> "idle", b |-> 0, mv |-> FALSE, v |-> 0]
 
 VARIABLES
     design, policy,
@@ -69,7 +79,12 @@ VARIABLES
     tmp,        \* [Keys -> Absent | 0..L]   temporary file used while saving key
     pc,         \* [Workers -> [k, at, b]]
     taken,      \* keys handed out in the current run
-    res,        \* [Keys -> "none" | "ok"]   result returned for the key in the current run
+    res,        \* [Keys -> 0 | version]     result returned for the key in the current run (0: none yet)
+    fn,         \* version of the mapped function the caller currently uses (1, 2, ...)
+    fv,         \* [Keys -> 0 | version]     which version's result the whole final file holds
+    memo,       \* [Keys -> 0 | value]       process-wide memo of loaded values (only used when Memo); 99 = mutated
+    clears, extra,
+    ops,        \* what the caller did so far: "run", "rerun", "mutate", "clear", "crash"
     computed,   \* keys computed in the current run
     status,     \* "running" | "raised" | "done" | "end"
     verify,     \* TRUE: the current run follows a completed run
@@ -77,7 +92,9 @@ VARIABLES
     snaps,      \* crash snapshots so far (only when EmitOn)
     fresh       \* TRUE exactly in the state right after a Crash
 
-vars == <<design, policy, fin, tmp, pc, taken, res, computed, status, verify, crashes, snaps, fresh>>
+vars == <<design, policy, fin, tmp, pc, taken, res, computed, status, verify, crashes, snaps, fresh,
+          fn, fv, memo, clears, extra, ops>>
+mem == <<fn, fv, memo, clears, extra, ops>>
 files == <<fin, tmp>>
 conf == <<design, policy>>
 
@@ -89,8 +106,10 @@ Init ==
     /\ tmp = [k \in Keys |-> Absent]
     /\ pc = [w \in Workers |-> IdlePc]
     /\ taken = {}
-    /\ res = [k \in Keys |-> "none"]
+    /\ res = [k \in Keys |-> 0]
     /\ computed = {}
+    /\ fn = 1 /\ fv = [k \in Keys |-> 0] /\ memo = [k \in Keys |-> 0]
+    /\ clears = 0 /\ extra = 0 /\ ops = <<"run">>
     /\ status = "running"
     /\ verify = FALSE
     /\ crashes = 0
@@ -104,25 +123,28 @@ Take(w, k) ==
     /\ At(w, "idle")
     /\ k \notin taken
     /\ Fifo => \A j \in Keys : j < k => j \in taken
-    /\ pc' = [pc EXCEPT ![w] = [k |-> k, at |-> "taken", b |-> 0, mv |-> FALSE]]
+    /\ pc' = [pc EXCEPT ![w] = [k |-> k, at |-> "taken", b |-> 0, mv |-> FALSE, v |-> 0]]
     /\ taken' = taken \cup {k}
     /\ fresh' = FALSE
-    /\ UNCHANGED <<conf, files, res, computed, status, verify, crashes, snaps>>
+    /\ UNCHANGED <<conf, mem, files, res, computed, status, verify, crashes, snaps>>
 
 \* file.exists()
 Lookup(w) ==
     /\ At(w, "taken")
     /\ Goto(w, IF fin[pc[w].k] # Absent THEN "hit" ELSE "miss")
     /\ fresh' = FALSE
-    /\ UNCHANGED <<conf, files, taken, res, computed, status, verify, crashes, snaps>>
+    /\ UNCHANGED <<conf, mem, files, taken, res, computed, status, verify, crashes, snaps>>
 
 LoadOk(w) ==
     /\ At(w, "hit")
     /\ fin[pc[w].k] = L
-    /\ res' = [res EXCEPT ![pc[w].k] = "ok"]
+    /\ LET k == pc[w].k
+           val == IF Memo /\ memo[k] # 0 THEN memo[k] ELSE fv[k]      \* contract: what is on disk
+       IN /\ res' = [res EXCEPT ![k] = val]
+          /\ memo' = IF Memo THEN [memo EXCEPT ![k] = val] ELSE memo
     /\ pc' = [pc EXCEPT ![w] = IdlePc]
     /\ fresh' = FALSE
-    /\ UNCHANGED <<conf, files, taken, computed, status, verify, crashes, snaps>>
+    /\ UNCHANGED <<conf, fn, fv, clears, extra, ops, files, taken, computed, status, verify, crashes, snaps>>
 
 \* loading a file that is not whole fails; what that means is the policy
 LoadBad(w) ==
@@ -132,14 +154,14 @@ LoadBad(w) ==
           THEN status' = "raised" /\ pc' = pc
           ELSE status' = status /\ Goto(w, "miss")
     /\ fresh' = FALSE
-    /\ UNCHANGED <<conf, files, taken, res, computed, verify, crashes, snaps>>
+    /\ UNCHANGED <<conf, mem, files, taken, res, computed, verify, crashes, snaps>>
 
 Compute(w) ==
     /\ At(w, "miss")
-    /\ Goto(w, "computed")
+    /\ pc' = [pc EXCEPT ![w].at = "computed", ![w].v = fn]
     /\ computed' = computed \cup {pc[w].k}
     /\ fresh' = FALSE
-    /\ UNCHANGED <<conf, files, taken, res, status, verify, crashes, snaps>>
+    /\ UNCHANGED <<conf, mem, files, taken, res, status, verify, crashes, snaps>>
 
 \* open(..., "wb") creates or truncates
 Open(w) ==
@@ -149,7 +171,7 @@ Open(w) ==
           THEN fin' = [fin EXCEPT ![pc[w].k] = 0] /\ tmp' = tmp
           ELSE tmp' = [tmp EXCEPT ![pc[w].k] = 0] /\ fin' = fin
     /\ fresh' = FALSE
-    /\ UNCHANGED <<conf, taken, res, computed, status, verify, crashes, snaps>>
+    /\ UNCHANGED <<conf, mem, taken, res, computed, status, verify, crashes, snaps>>
 
 \* the file the open handle of worker w writes into
 IntoFinal(w) == design = "direct" \/ pc[w].mv
@@ -164,7 +186,7 @@ Write(w) ==
     /\ pc[w].b < L
     /\ pc' = [pc EXCEPT ![w].b = @ + 1]
     /\ fresh' = FALSE
-    /\ UNCHANGED <<conf, files, taken, res, computed, status, verify, crashes, snaps>>
+    /\ UNCHANGED <<conf, mem, files, taken, res, computed, status, verify, crashes, snaps>>
 
 \* the buffer spills one chunk into the file (may happen at any time)
 Flush(w) ==
@@ -172,7 +194,7 @@ Flush(w) ==
     /\ Content(w) < pc[w].b
     /\ SetContent(w, Content(w) + 1)
     /\ fresh' = FALSE
-    /\ UNCHANGED <<conf, pc, taken, res, computed, status, verify, crashes, snaps>>
+    /\ UNCHANGED <<conf, mem, pc, taken, res, computed, status, verify, crashes, snaps>>
 
 \* close() flushes whatever is still buffered
 Close(w) ==
@@ -180,9 +202,10 @@ Close(w) ==
     /\ pc[w].b = L
     /\ (RenameAt = "written" /\ design = "temp") => pc[w].mv     \* the wrong order always renames first
     /\ SetContent(w, L)
+    /\ fv' = IF IntoFinal(w) THEN [fv EXCEPT ![pc[w].k] = pc[w].v] ELSE fv
     /\ Goto(w, IF IntoFinal(w) THEN "saved" ELSE "closed")
     /\ fresh' = FALSE
-    /\ UNCHANGED <<conf, taken, res, computed, status, verify, crashes, snaps>>
+    /\ UNCHANGED <<conf, fn, memo, clears, extra, ops, taken, res, computed, status, verify, crashes, snaps>>
 
 \* wrong order: the temporary file is moved onto the final path while it is still open
 RenameEarly(w) ==
@@ -191,8 +214,9 @@ RenameEarly(w) ==
     /\ fin' = [fin EXCEPT ![pc[w].k] = tmp[pc[w].k]]
     /\ tmp' = [tmp EXCEPT ![pc[w].k] = Absent]
     /\ pc' = [pc EXCEPT ![w].mv = TRUE]
+    /\ fv' = [fv EXCEPT ![pc[w].k] = pc[w].v]
     /\ fresh' = FALSE
-    /\ UNCHANGED <<conf, taken, res, computed, status, verify, crashes, snaps>>
+    /\ UNCHANGED <<conf, fn, memo, clears, extra, ops, taken, res, computed, status, verify, crashes, snaps>>
 
 \* atomic replace of the final path by the temporary file
 Rename(w) ==
@@ -200,46 +224,70 @@ Rename(w) ==
     /\ At(w, "closed")
     /\ fin' = [fin EXCEPT ![pc[w].k] = tmp[pc[w].k]]
     /\ tmp' = [tmp EXCEPT ![pc[w].k] = Absent]
+    /\ fv' = [fv EXCEPT ![pc[w].k] = pc[w].v]
     /\ Goto(w, "saved")
     /\ fresh' = FALSE
-    /\ UNCHANGED <<conf, taken, res, computed, status, verify, crashes, snaps>>
+    /\ UNCHANGED <<conf, fn, memo, clears, extra, ops, taken, res, computed, status, verify, crashes, snaps>>
 
 Return(w) ==
     /\ At(w, "saved")
-    /\ res' = [res EXCEPT ![pc[w].k] = "ok"]
+    /\ res' = [res EXCEPT ![pc[w].k] = pc[w].v]
     /\ pc' = [pc EXCEPT ![w] = IdlePc]
     /\ fresh' = FALSE
-    /\ UNCHANGED <<conf, files, taken, computed, status, verify, crashes, snaps>>
+    /\ UNCHANGED <<conf, mem, files, taken, computed, status, verify, crashes, snaps>>
 
 FinishRun ==
     /\ status = "running"
-    /\ \A k \in Keys : res[k] = "ok"
+    /\ \A k \in Keys : res[k] # 0
     /\ status' = "done"
     /\ fresh' = FALSE
-    /\ UNCHANGED <<conf, files, pc, taken, res, computed, verify, crashes, snaps>>
+    /\ UNCHANGED <<conf, mem, files, pc, taken, res, computed, verify, crashes, snaps>>
 
 StartRun ==
     /\ pc' = [w \in Workers |-> IdlePc]
     /\ taken' = {}
-    /\ res' = [k \in Keys |-> "none"]
+    /\ res' = [k \in Keys |-> 0]
     /\ computed' = {}
     /\ status' = "running"
 
 \* the caller repeats a completed run: everything must now come from disk
 NextRun ==
-    /\ status = "done" /\ ~verify
+    /\ status = "done" /\ (~verify \/ extra < MaxExtra)
     /\ StartRun
     /\ verify' = TRUE
+    /\ extra' = IF verify THEN extra + 1 ELSE extra
+    /\ ops' = Append(ops, "rerun")
     /\ fresh' = FALSE
-    /\ UNCHANGED <<conf, files, crashes, snaps>>
+    /\ UNCHANGED <<conf, fn, fv, memo, clears, files, crashes, snaps>>
+
+\* the caller (same process) mutates the objects a completed run returned
+Mutate ==
+    /\ status = "done" /\ verify /\ extra < MaxExtra /\ ops[Len(ops)] # "mutate"
+    /\ memo' = IF Memo THEN [k \in Keys |-> IF memo[k] # 0 THEN 99 ELSE 0] ELSE memo
+    /\ ops' = Append(ops, "mutate")
+    /\ fresh' = FALSE
+    /\ UNCHANGED <<conf, fn, fv, clears, extra, files, pc, taken, res, computed, status, verify, crashes, snaps>>
+
+\* the caller deletes the cache directory because the mapped function changed, and runs again (same process)
+ClearCache ==
+    /\ status = "done" /\ clears < MaxClear
+    /\ fin' = [k \in Keys |-> Absent] /\ tmp' = [k \in Keys |-> Absent]
+    /\ fv' = [k \in Keys |-> 0]
+    /\ fn' = fn + 1
+    /\ clears' = clears + 1 /\ extra' = 0
+    /\ StartRun
+    /\ verify' = FALSE
+    /\ ops' = ops \o <<"clear", "run">>
+    /\ fresh' = FALSE
+    /\ UNCHANGED <<conf, memo, crashes, snaps>>
 
 EndAll ==
     /\ status = "done" /\ verify
     /\ status' = "end"
     /\ fresh' = FALSE
-    /\ UNCHANGED <<conf, files, pc, taken, res, computed, verify, crashes, snaps>>
+    /\ UNCHANGED <<conf, mem, files, pc, taken, res, computed, verify, crashes, snaps>>
 
-Snapshot == [pcs |-> pc, fin |-> fin, tmp |-> tmp, verify |-> verify, done |-> {k \in Keys : res[k] = "ok"}]
+Snapshot == [pcs |-> pc, fin |-> fin, tmp |-> tmp, verify |-> verify, done |-> {k \in Keys : res[k] # 0}]
 
 \* the run is killed: every worker is gone, the files stay; the caller runs again
 Crash ==
@@ -248,8 +296,10 @@ Crash ==
     /\ StartRun
     /\ crashes' = crashes + 1
     /\ snaps' = IF EmitOn THEN Append(snaps, Snapshot) ELSE snaps
+    /\ memo' = [k \in Keys |-> 0]                 \* a fresh process
+    /\ ops' = Append(ops, "crash")
     /\ fresh' = TRUE
-    /\ UNCHANGED <<conf, files, verify>>
+    /\ UNCHANGED <<conf, fn, fv, clears, extra, files, verify>>
 
 Stutter == status \in {"end", "raised"} /\ UNCHANGED vars
 
@@ -258,7 +308,7 @@ Tau(w) == Lookup(w) \/ Open(w) \/ Write(w) \/ Flush(w) \/ Close(w) \/ Rename(w) 
 Progress ==
     \/ \E w \in Workers : \/ \E k \in Keys : Take(w, k)
                           \/ Tau(w) \/ LoadOk(w) \/ LoadBad(w) \/ Compute(w)
-    \/ FinishRun \/ NextRun \/ EndAll
+    \/ FinishRun \/ NextRun \/ EndAll \/ Mutate \/ ClearCache
 
 Next == Progress \/ Crash \/ Stutter
 
@@ -275,11 +325,16 @@ TypeOK ==
     /\ status \in {"running", "raised", "done", "end"}
 
 NoRaise == status # "raised"
+\* every completed run returns the results of the function the caller uses NOW: a hit returns what is on disk
+RightResults == status \in {"done", "end"} => \A k \in Keys : res[k] = fn
 NoRecompute == verify => computed = {}
 FinalWhole == design = "temp" => \A k \in Keys : fin[k] \in {Absent, L}
 \* two workers never hold the same key
 OneOwner == \A v, w \in Workers : (v # w /\ pc[v].k # 0) => pc[v].k # pc[w].k
 Terminates == <>(status = "end")
+
+EmitOps == (EmitOn /\ status = "end" /\ clears > 0) =>
+    PrintT("@J@" \o ToJson([nk |-> NKeys, w |-> W, ops |-> ops]) \o "@E@")
 
 Emit == (EmitOn /\ fresh) =>
     PrintT("@J@" \o ToJson([nk |-> NKeys, w |-> W, l |-> L, design |-> design, policy |-> policy,
